@@ -3,6 +3,7 @@ package c08
 import (
 	"fmt"
 	"math/rand"
+	"runtime"
 	"strings"
 	"sync"
 	"sync/atomic"
@@ -20,6 +21,18 @@ import (
 // messages across logon, logout, stop and repeated disconnects; a scripted peer connects several
 // times and ends each connection differently. The same automaton (live variant) judges the trace.
 func runLive(c *core.Ctx, r *core.Result) {
+	// widen the windows between the send path's critical sections (harmless where the code holds its lock across them)
+	var pc uint64
+	quickfix.VerifSetPoint(func(name string) {
+		n := atomic.AddUint64(&pc, 1)
+		switch {
+		case name == "enqueue.enter" || name == "dropAndSend.enter":
+			time.Sleep(time.Duration(100+n%400) * time.Microsecond)
+		case n%5 == 0:
+			runtime.Gosched()
+		}
+		r.Count("hook_point."+name, 1)
+	})
 	runs := c.N(12, 160)
 	sem := make(chan struct{}, 6)
 	var wg sync.WaitGroup
